@@ -217,6 +217,10 @@ fn main() {
     };
     both_hashes(&mut ctx, &mut setup, &every, 1, 0, 13, true);
     both_hashes(&mut ctx, &mut setup, &every, 2, 0, 14, false);
+    // first advice query rotated, no committed instance: the first opening point is x·ω, not x
+    let rot_first = FamParams { gates: vec![GateKind::NextFirst, GateKind::Mul], n_committed: 0, n_plain: 1, ..FamParams::default() };
+    both_hashes(&mut ctx, &mut setup, &rot_first, 1, 0, 15, true);
+    both_hashes(&mut ctx, &mut setup, &rot_first, 2, 0, 16, false);
 
     let (n_random, search_cfgs) = match ctx.tier.as_str() {
         "quick" => (14, false),
